@@ -30,15 +30,25 @@ def round_nd(eng, x, nd):
         if fx - lo != Fraction(1, 2):
             r = lo if fx - lo < Fraction(1, 2) else lo + 1
             return SV(REAL, Fraction(r, scale))
-    f = z3.Function("RND%d" % nd, z3.RealSort(), z3.RealSort())
-    xt = zreal(x.t)
+    # RND is deterministic and odd; it is Ackermannised (one real variable per distinct argument term plus the
+    # pairwise congruence / oddness implications) because UF applications over real terms made the integrality
+    # goals undecidable in practice for z3 and cvc5
+    xt = z3.simplify(zreal(x.t))
+    reg = eng.path.ghost.setdefault("rnd", [])
+    for x0, r0, nd0 in reg:
+        if nd0 == nd and x0.eq(xt):
+            return SV(REAL, r0)
     k = z3.Int(fresh_name("rnd"))
-    r = f(xt)
+    r = z3.Real(fresh_name("rndv"))
     half = z3.RealVal(1) / (2 * scale)
-    fact = z3.And(r == z3.ToReal(k) / scale, r - xt <= half, xt - r <= half, f(-xt) == -r)
-    if eng.spec_mode and eng.path is not None:
-        eng.path.ghost.setdefault("round_facts", []).append(fact)
-    eng.path.assume(fact, check=False)
+    facts = [r * scale == z3.ToReal(k), r - xt <= half, xt - r <= half]
+    for x0, r0, nd0 in reg:
+        if nd0 == nd:
+            facts.append(z3.Implies(xt == x0, r == r0))
+            facts.append(z3.Implies(xt == -x0, r == -r0))
+    reg.append((xt, r, nd))
+    for fct in facts:
+        eng.path.assume(fct, check=False)
     return SV(REAL, r)
 
 
@@ -82,13 +92,19 @@ def call_builtin(eng, name, args, kwargs, line, fr):
             c = bm.order_compare(eng, "Lt" if name == "min" else "Gt", y, res, line)
             if isinstance(c, bool):
                 res = y if c else res
+            elif eng.spec_mode:
+                d = eng.decide(c)
+                res = (y if d else res) if d is not None else bm.ite(eng, c, y, res)
             else:
-                res = bm.ite(eng, c, y, res)
+                # executable code: case split (keeps if-then-else terms out of integrality / rounding goals)
+                res = y if eng.branch(c, name) else res
         return res
     if name == "abs":
         x = eng.deref(args[0], "TypeError", line)
         if is_conc_num(x.t):
             return SV(x.sort, abs(x.t))
+        if not eng.spec_mode:
+            return x if eng.branch(zr(x.t) >= 0, "abs") else SV(x.sort, -zr(x.t))
         return SV(x.sort, z3.If(zr(x.t) >= 0, zr(x.t), -zr(x.t)))
     if name == "round":
         x = eng.deref(args[0], "TypeError", line)
@@ -301,48 +317,48 @@ def sorted_builtin(eng, args, kwargs, line):
 
 
 # --------------------------------------------------------------------------- sums as spec functions
-def seq_sum(eng, arr, lo, hi, sort=REAL):
+def seq_sum(eng, arr, lo, hi, sort=REAL, family="sum"):
     """Sigma_{lo <= j < hi} arr[j] as an uninterpreted function with on-demand unfolding axioms"""
     p = eng.path
     reg = p.ghost.setdefault("sums", [])
     zs = z3.RealSort() if sort == REAL else z3.IntSort()
     f = z3.Function("SUM_%s" % ("R" if sort == REAL else "I"), z3.ArraySort(z3.IntSort(), zs), z3.IntSort(), z3.IntSort(), zs)
     t = f(arr, zr(lo), zr(hi))
-    reg.append((f, arr, zr(lo), zr(hi), sort))
+    reg.append((f, arr, zr(lo), zr(hi), sort, family))
     return t
 
 
 def sum_axioms(eng):
-    """unfolding + congruence instances for every registered sum term of this path"""
+    """unfolding + congruence instances for every registered sum term of this path (computed incrementally)"""
     p = eng.path
+    if p is None:
+        return []
     reg = p.ghost.get("sums", [])
-    ax = []
-    seen = set()
-    items = []
-    for f, arr, lo, hi, sort in reg:
-        key = (f.name(), arr.get_id(), lo.get_id(), hi.get_id())
-        if key in seen:
-            continue
-        seen.add(key)
-        items.append((f, arr, lo, hi, sort))
+    st = p.ghost.setdefault("sum_state", dict(done=0, seen=set(), items=[], ax=[]))
     zero = lambda s: z3.RealVal(0) if s == REAL else z3.IntVal(0)
-    for f, arr, lo, hi, sort in items:
+    ax = st["ax"]
+    items = st["items"]
+    for f, arr, lo, hi, sort, fam in reg[st["done"]:]:
+        key = (f.name(), arr.get_id(), lo.get_id(), hi.get_id())
+        if key in st["seen"]:
+            continue
+        st["seen"].add(key)
         ax.append(z3.Implies(hi <= lo, f(arr, lo, hi) == zero(sort)))
         ax.append(z3.Implies(hi > lo, f(arr, lo, hi) == f(arr, lo, hi - 1) + z3.Select(arr, hi - 1)))
         ax.append(z3.Implies(hi - 1 <= lo, f(arr, lo, hi - 1) == zero(sort)))
-        ax.append(z3.Implies(hi - 1 > lo, f(arr, lo, hi - 1) == f(arr, lo, hi - 2) + z3.Select(arr, hi - 2)))
-    # congruence: equal contents on the range => equal sums
-    for a in range(len(items)):
-        for b in range(a + 1, len(items)):
-            f1, arr1, lo1, hi1, s1 = items[a]
-            f2, arr2, lo2, hi2, s2 = items[b]
-            if s1 != s2 or arr1.get_id() == arr2.get_id():
+        # congruence with the earlier sums: equal contents on the range => equal sums
+        for f2, arr2, lo2, hi2, s2, fam2 in items:
+            if s2 != sort or fam2 != fam or arr2.get_id() == arr.get_id():
                 continue
-            k = z3.Int(fresh_name("sk"))
-            for (l, h) in {(lo1.get_id(), hi1.get_id()): (lo1, hi1), (lo2.get_id(), hi2.get_id()): (lo2, hi2), (lo1.get_id(), (hi1 - 1).get_id()): (lo1, hi1 - 1)}.values():
+            ranges = {}
+            for (l, h) in ((lo, hi), (lo2, hi2), (lo, hi - 1), (lo2, hi2 - 1)):
+                ranges[(l.get_id(), h.get_id())] = (l, h)
+            for (l, h) in ranges.values():
                 kk = z3.Int(fresh_name("sk"))
-                ax.append(z3.Or(z3.And(l <= kk, kk < h, z3.Select(arr1, kk) != z3.Select(arr2, kk)), f1(arr1, l, h) == f2(arr2, l, h)))
-    return ax
+                ax.append(z3.Or(z3.And(l <= kk, kk < h, z3.Select(arr, kk) != z3.Select(arr2, kk)), f(arr, l, h) == f2(arr2, l, h)))
+        items.append((f, arr, lo, hi, sort, fam))
+    st["done"] = len(reg)
+    return list(ax)
 
 
 # --------------------------------------------------------------------------- methods on values
@@ -428,8 +444,8 @@ def call_value_method(eng, base, name, args, kwargs, line, fr):
         if name == "index":
             n = eng.list_len(base.t, elem)
             x = bm.coerce(eng, args[0], elem)
-            i = z3.Int(fresh_name("li"))
-            j = z3.Int(fresh_name("lj"))
+            i = bvar("li")
+            j = bvar("lj")
             e_i = zb(eng.eq(eng.list_get(base.t, elem, i), x))
             exists = z3.Exists([i], z3.And(0 <= i, i < n, e_i))
             if not eng.branch(exists, "index"):
@@ -450,7 +466,7 @@ def call_value_method(eng, base, name, args, kwargs, line, fr):
                 if not eng.branch(n > 0, "pop"):
                     raise E.PyRaise("IndexError", None, line)
                 first = eng.list_get(base.t, elem, z3.IntVal(0))
-                j = z3.Int(fresh_name("pp"))
+                j = bvar("pp")
                 arrs = [z3.Lambda([j], z3.Select(a, j + 1)) for a in eng.list_items(base.t, elem)]
                 eng.list_set_all(base.t, elem, n - 1, arrs)
                 return first
@@ -526,8 +542,8 @@ def list_remove(eng, lv, x, line):
     elem = lv.sort.elem
     n = eng.list_len(lv.t, elem)
     x = bm.coerce(eng, x, elem)
-    i = z3.Int(fresh_name("ri"))
-    j = z3.Int(fresh_name("rj"))
+    i = bvar("ri")
+    j = bvar("rj")
     e_i = zb(eng.eq(eng.list_get(lv.t, elem, i), x))
     exists = z3.Exists([i], z3.And(0 <= i, i < n, e_i))
     if not eng.branch(exists, "remove"):
@@ -729,6 +745,24 @@ def spec_form(eng, node, fr):
             old.update({k: v for k, v in eng.path.heap.items() if k not in old})
             eng.path.heap = saved
             fr.locals = saved_locals
+    if name == "is_int":
+        v = bm.as_num(eng, eng.eval(node.args[0], fr), node.lineno)
+        if is_conc_num(v.t):
+            return SV(BOOL, Fraction(v.t).denominator == 1)
+        if z3.is_int(zr(v.t)):
+            return TRUE_V
+        y = zreal(v.t)
+        if False:
+            # purify: to_int over terms with array selects / UF applications is not decided in practice
+            reg = eng.path.ghost.setdefault("isint_pure", {})
+            ys = z3.simplify(y)
+            pv = reg.get(ys.get_id())
+            if pv is None or not pv[0].eq(ys):
+                pv = (ys, z3.Real(fresh_name("pure")))
+                reg[ys.get_id()] = pv
+                eng.path.assume(pv[1] == ys, check=False)
+            y = pv[1]
+        return SV(BOOL, y == z3.ToReal(z3.ToInt(y)))  # solver-friendlier than (is_int y): gives a witness when assumed
     if name == "implies":
         a = eng.truth(eng.eval(node.args[0], fr))
         if a is False:
@@ -744,7 +778,7 @@ def spec_form(eng, node, fr):
         if not isinstance(lam, ast.Lambda):
             raise EngineLimit("%s needs a lambda" % name)
         vars_ = [a.arg for a in lam.args.args]
-        zs = [z3.Int(fresh_name("q_" + v)) for v in vars_]
+        zs = [bvar("q_" + v) for v in vars_]
         fr2 = E.Frame(fr.module, fr.cls, fr.func, dict(fr.locals))
         for attr in ("old_heap", "old_locals"):
             if hasattr(fr, attr):
@@ -756,7 +790,11 @@ def spec_form(eng, node, fr):
             lo = eng.eval(node.args[1], fr)
             hi = eng.eval(node.args[2], fr)
             guard = z3.And(zr(lo.t) <= zs[0], zs[0] < zr(hi.t))
-        body = zb(eng.truth(eng.eval(lam.body, fr2)))
+        eng.bound_depth = getattr(eng, "bound_depth", 0) + 1
+        try:
+            body = zb(eng.truth(eng.eval(lam.body, fr2)))
+        finally:
+            eng.bound_depth -= 1
         if name.startswith("forall"):
             return SV(BOOL, z3.ForAll(zs, z3.Implies(guard, body) if guard is not True else body))
         return SV(BOOL, z3.Exists(zs, z3.And(guard, body) if guard is not True else body))
@@ -764,17 +802,21 @@ def spec_form(eng, node, fr):
         lam = node.args[0]
         lo = eng.eval(node.args[1], fr)
         hi = eng.eval(node.args[2], fr)
-        j = z3.Int(fresh_name("sj"))
+        j = bvar("sj")
         fr2 = E.Frame(fr.module, fr.cls, fr.func, dict(fr.locals))
         for attr in ("old_heap", "old_locals"):
             if hasattr(fr, attr):
                 setattr(fr2, attr, getattr(fr, attr))
         fr2.locals[lam.args.args[0].arg] = SV(INT, j)
-        body = eng.eval(lam.body, fr2)
+        eng.bound_depth = getattr(eng, "bound_depth", 0) + 1
+        try:
+            body = eng.eval(lam.body, fr2)
+        finally:
+            eng.bound_depth -= 1
         body = bm.as_num(eng, body, node.lineno)
         arr = z3.Lambda([j], zreal(body.t))
         arr = z3.simplify(arr)
-        return SV(REAL, seq_sum(eng, arr, lo.t, hi.t, REAL))
+        return SV(REAL, seq_sum(eng, arr, lo.t, hi.t, REAL, family=id(lam)))
     if name == "let":
         raise EngineLimit("let")
     if name == "fresh":
